@@ -80,7 +80,11 @@ func stressMain(args []string) {
 			r.GET("/in/{x}", func(c *rux.Context) { c.Text(200, "group:"+c.Param("x")) })
 		}, func(c *rux.Context) { c.Next() })
 		probes = append(probes, probe{"GET", "/g/in/7", "200:group:7"}, probe{"GET", "/nope", "404:404 page not found\n"},
-			probe{"POST", "/s1", "405:Method not allowed\n"}, probe{"HEAD", "/d2/1", "200:dyn2:1"})
+			probe{"POST", "/s1", "405[GET]:Method not allowed\n"}, probe{"HEAD", "/d2/1", "200:dyn2:1"},
+			// several 405 requests for the same paths at the same time: the allowed-method lists are per request
+			probe{"POST", "/s0", "405[GET]:Method not allowed\n"}, probe{"DELETE", "/m/7", "405[GET, PATCH, POST, PUT]:Method not allowed\n"},
+			probe{"OPTIONS", "/m/8", "200[GET, PATCH, POST, PUT]:"}, probe{"TRACE", "/m/7", "405[GET, PATCH, POST, PUT]:Method not allowed\n"})
+		r.Add("/m/{id}", func(c *rux.Context) { c.Text(200, "multi") }, "GET", "POST", "PUT", "PATCH")
 		var wg sync.WaitGroup
 		for g := 0; g < 8; g++ {
 			g := g
@@ -97,6 +101,9 @@ func stressMain(args []string) {
 						r.ServeHTTP(w, req)
 					}()
 					got := fmt.Sprintf("%d:%s", w.Code, w.Body.String())
+					if al := w.Header().Get("Allow"); al != "" {
+						got = fmt.Sprintf("%d[%s]:%s", w.Code, al, w.Body.String())
+					}
 					atomic.AddInt64(&total, 1)
 					if got != p.want {
 						if atomic.AddInt64(&wrong, 1) == 1 {
